@@ -8,26 +8,8 @@ BASE = ("cd /repo && /venv/bin/python -m pytest -ra -q -p no:cacheprovider --tim
         "--continue-on-collection-errors")
 
 # property -> (engine spec modules, technique, level text, level note, design ref)
-CHECKS = {
- "C16": ("HeaderDict.tla, MC_HeaderDict.tla, HeaderDict_Trace.tla",
-         "TLA+ reference multimap; TLC-emitted transition graph replayed on real HTTPHeaderDict objects; TLC batch trace validation of random walks",
-         "TLC checks the reference multimap's own consistency properties exhaustively within the depth bound, emits every "
-         "transition of the reachable graph (all operation sequences up to the bound over the property's alphabet, collapsed by state), "
-         "each transition is replayed on real objects and compared, and recorded random 30-step walks over up to three live "
-         "objects are validated step by step by TLC against the same Apply operator, including every observation the statement lists.",
-         "Names/values limited to the property's alphabet; sources limited to four constant dict/list/kwargs sources plus live HTTPHeaderDicts; TLC and CPython trusted.",
-         "§4 C16"),
- "C18": ("PoolKey.tla, MC_PoolKey.tla, PoolKey_Trace.tla",
-         "TLA+ pool-identity model with constants extracted from the constructors' signatures at run time; TLC-emitted one-keyword-apart scenarios replayed on real PoolManager/ProxyManager; TLC batch trace validation",
-         "The keyword sets (inspect.signature of the pool/connection constructors), PoolKey fields and SSL keyword list are read from the tree under test at run time and become TLC constants; TLC checks on them that every keyword is a key field or rejected, that contexts one keyword apart have distinct keys and that normalisation merges only case/default-port variants, and emits every scenario with the model's expected observation. Each scenario is replayed on a real PoolManager/ProxyManager (constructor defaults, pool_kwargs, request context), and the recorded traces (pool identity, key equality, configuration of the returned pool, defaults untouched) plus seeded random multi-keyword traces are judged by TLC.",
-         "Two values per keyword (three for some) chosen by the harness; value equality taken from Python ==/hash; SOCKS constructors only if PySocks is importable; TLC and CPython trusted. Two recorded findings (port 0 treated as unset; retries False == 0 in the key).",
-         "§4 C18"),
- "C20": ("Multipart.tla, MC_Multipart.tla, Multipart_Trace.tla",
-         "TLA+ Encode/strict Parse round-trip model over a hostile symbol alphabet; TLC-emitted field lists replayed into encode_multipart_formdata byte-for-byte; real outputs lexed to symbols and judged by TLC's Parse",
-         "TLC checks exhaustively within the bounds that the strict independent Parse of Encode returns exactly the specified parts (RoundTrip), that the content type names the boundary, that the WHATWG escaping is sound and that no field content can terminate a parameter, add a header or open a part; a canary invariant (the same layout without escaping) must be refuted. Every explored (boundary, field list) is replayed into the real encoder in up to five input shapes and compared byte for byte with the model's encoding; seeded random longer field lists are encoded by the real code, lexed into the spec's symbols and judged by TLC.",
-         "Field content limited to the property's hostile alphabet plus a few payload words; the symbol<->bytes lexer is trusted (checked invertible on every emitted body); TLC and CPython trusted.",
-         "§4 C20"),
-}
+CHECKS = {pid: (c["engine"], c["technique"], c["text"], c["note"], c["design_ref"])
+          for pid, c in json.load(open(os.path.join(ROOT, "tools", "checks.json"))).items()}
 NOT_YET = "check not built yet in this session (planned, see DESIGN.md §9); no claim is made"
 
 def main():
